@@ -719,9 +719,12 @@ Theorem humansize_is_spec_proof n :
 Proof.
   intros Hn. destruct (humansize_greatest_proof n Hn) as (f & Vf & Ef & Lf & Gf).
   destruct (best_form_spec n ltac:(lia)) as (Vb & Lb & Gb).
-  rewrite Ef. unfold hs_format_spec. f_equal. f_equal.
+  rewrite Ef. unfold hs_format_spec.
+  assert (f = best_form n) as E; [|rewrite <- E; reflexivity].
   apply form_value_injective; [exact Vf | exact Vb |].
-  assert (form_value f <= form_value (best_form n)) by (apply Gb; [exists f; auto | exact Lf]).
-  assert (form_value (best_form n) <= form_value f) by (apply Gf; [exists (best_form n); auto | exact Lb]).
-  lia.
+  assert (form_value f <= form_value (best_form n)) as H1.
+  { apply Gb; [exists f; split; [exact Vf | reflexivity] | exact Lf]. }
+  assert (form_value (best_form n) <= form_value f) as H2.
+  { apply Gf; [exists (best_form n); split; [exact Vb | reflexivity] | exact Lb]. }
+  apply Z.le_antisymm; assumption.
 Qed.
